@@ -2,7 +2,7 @@
 # Build the framework from files on disk only (offline).
 set -e
 cd "$(dirname "$0")"
-export CARGO_NET_OFFLINE=true CARGO_TARGET_DIR=/verif/target
+export CARGO_NET_OFFLINE=true CARGO_TARGET_DIR="$(pwd)/target"
 REPO="${ROTO_REPO:-/repo}"
 (cd extract && cargo build --offline --quiet)
 # regenerate every Generated/*.lean the lake project imports
